@@ -699,6 +699,240 @@ def r7_subspace_typing(ctx):
             ctx.ok(f"{qual}: every selector is applied to an array of its own space and every store receives values of the selected sub-space", fn)
 
 
+def r8_solveexp1(ctx):
+    """First-order exact solver y' = A y + f: the constructor takes E, P, Q from expmint.getEPQ(A, h, order) and tsolve advances
+    y_j = E y_{j-1} + P f_{j-1} + Q f_j (order 1) / E y_{j-1} + P f_{j-1} (order 0) from y_0 = d0 (0 when not given), returning v = f + A y.
+    Decided on a generic 4-sample history (force columns f0..f3 as symbols, matrices as commuting symbols; the loop over constant bounds is unrolled)."""
+    from .sem import Sem
+    SE1 = "pyyeti/ode/solveexp1.py"
+    init = ctx.src.func(SE1, "SolveExp1.__init__")
+    ts = ctx.src.func(SE1, "SolveExp1.tsolve")
+    # constructor
+    def call0(node, ev):
+        d = dotted(node.func) or ""
+        if d.endswith("getEPQ"):
+            vals = [ev.ev(a) for a in node.args] + [ev.ev(k.value) for k in node.keywords]
+            names = ["A", "h", "order"][:len(node.args)] + [k.arg for k in node.keywords]
+            got = dict(zip(names, vals))
+            ok = all(k in got and not is_unknown(got[k]) and need(got[k]).equals(F.sym(k)) for k in ("A", "h", "order"))
+            ctx.check(ok, "SolveExp1.__init__: E, P, Q = getEPQ(A, h, order) - the state matrix, the step and the hold order are passed in their places", node,
+                      None if ok else {k: repr(v) for k, v in got.items()})
+            return (F.sym("E"), F.sym("P"), F.sym("Q"))
+        return NotImplemented
+    S0 = Sem(ctx, init, call=call0, cond=lambda t, ev: True if utext(t) == "h" else None, env={"A": F.sym("A"), "h": F.sym("h"), "order": F.sym("order")})
+    ok = all(S0.same(S0.env(f"self.{x}"), F.sym(x)) for x in ("E", "P", "Q", "A", "h", "order"))
+    ctx.check(ok, "SolveExp1.__init__: E, P, Q, A, h, order are stored under their own names", init, None if ok else {x: repr(S0.env(f"self.{x}")) for x in "EPQA"})
+    NT = 4
+    f = tuple(F.sym(f"f{k}") for k in range(NT))
+    E_, P_, Q_, A_ = F.sym("E"), F.sym("P"), F.sym("Q"), F.sym("A")
+    for order in (1, 0):
+        for given in (True, False):
+            def cond(test, ev, order=order, given=given):
+                t = utext(test)
+                return {"force.shape[0]!=self.n": False, "d0isnotNone": given, "d0isNone": not given, "nt>1": True, "self.h": True, "notself.h": False,
+                        "self.order==1": order == 1, "self.order==0": order == 0}.get(t)
+
+            def call(node, ev):
+                d = dotted(node.func) or ""
+                if d == "np.atleast_2d":
+                    return ev.ev(node.args[0])
+                if d in ("np.zeros", "np.empty") and len(node.args) == 2 and ast.unparse(node.args[0]) == "self.n":
+                    return F.const(0)
+                return NotImplemented
+            S = Sem(ctx, ts, cond=cond, call=call, loop_unroll=8, pinned={"nt": F.const(NT)},
+                    env={"force": f, "d0": F.sym("d0"), "self.E": E_, "self.P": P_, "self.Q": Q_, "self.A": A_, "self.h": F.sym("h")})
+            cells = {}
+            for ix, val, st in S.cells("d"):
+                u = None
+                try:
+                    from .sem import unfn
+                    u = unfn(ix)
+                except Exception:  # noqa
+                    pass
+                if u and u[0] == "tuple" and len(u[1]) == 2 and not isinstance(u[1][1], str) and u[1][1].is_const():
+                    cells[int(u[1][1].const_value())] = (val, st)
+            y = F.sym("d0") if given else F.const(0)
+            ok0 = (0 in cells and S.same(cells[0][0], F.sym("d0"))) if given else (0 not in cells)
+            ctx.check(ok0, f"SolveExp1.tsolve (order {order}, d0 {'given' if given else 'None'}): the first column is the initial state"
+                      + ("" if given else " (zero)"), ts)
+            ok = True
+            detail = None
+            for j in range(1, NT):
+                want = E_ * y + P_ * f[j - 1] + (Q_ * f[j] if order == 1 else 0)
+                got = cells.get(j, (None, None))[0]
+                if got is None or is_unknown(got) or isinstance(got, tuple) or not need(got).equals(want):
+                    ok = False
+                    detail = {"step": j, "stored": repr(got), "recurrence": repr(want)}
+                    break
+                y = want
+            ctx.check(ok, f"SolveExp1.tsolve (order {order}, d0 {'given' if given else 'None'}): y_j = E y_j-1 + P f_j-1" + (" + Q f_j" if order == 1 else "")
+                      + " for every step of a generic history", ts, detail)
+            ns = S.calls("SimpleNamespace")
+            ok = len(ns) == 1 and S.same(ns[0][2].get("d"), F.sym("d")) and isinstance(ns[0][2].get("v"), tuple) \
+                and all(S.same(x, fk + A_ * F.sym("d")) for x, fk in zip(ns[0][2]["v"], f))
+            ctx.check(ok, f"SolveExp1.tsolve (order {order}): returns d and v = f + A d (the first-order equation itself)", ns[0][3] if ns else ts)
+
+
+def r9_solveexp2(ctx):
+    """Second-order exact solver in state-space form z = [v; d], z' = A z + [M^-1 f; 0]: the constructor cuts E = expm(A h) into the four blocks
+    E_vv, E_vd, E_dv, E_dd by the [v; d] layout, and tsolve advances d_i+1 = E_dd d_i + E_dv v_i + (P g_i + Q g_i+1)_d,
+    v_i+1 = E_vd d_i + E_vv v_i + (P g_i + Q g_i+1)_v with g = M^-1 f (order 0: no Q term).  Decided on a generic 4-sample history
+    (unrolled loop, stores forwarded to loads), for m None / diagonal / full."""
+    from .sem import Sem, unfn
+    SE2 = "pyyeti/ode/solveexp2.py"
+    init = ctx.src.func(SE2, "SolveExp2.__init__")
+    ts = ctx.src.func(SE2, "SolveExp2.tsolve")
+
+    def call0(node, ev):
+        d = dotted(node.func) or ""
+        if d.endswith("getEPQ"):
+            vals = [ev.ev(a) for a in node.args]
+            kws = {k.arg: ev.ev(k.value) for k in node.keywords}
+            got = dict(zip(["A", "h", "order"], vals))
+            got.update(kws)
+            ok = all(k in got and not is_unknown(got[k]) for k in ("A", "h", "order", "half")) and need(got["h"]).equals(F.sym("h")) \
+                and need(got["order"]).equals(F.sym("order")) and need(got["half"]).equals(F.const(1)) and need(got["A"]).equals(F.sym("Astate"))
+            ctx.check(ok, "SolveExp2.__init__: E, P, Q = getEPQ(A, h, order, half=True) with A the [v; d] state matrix - P, Q keep only the force half of "
+                          "the input columns", node, None if ok else {k: repr(v) for k, v in got.items()})
+            return (F.sym("E"), F.sym("P"), F.sym("Q"))
+        if d == "self._build_A":
+            return F.sym("Astate")
+        return NotImplemented
+
+    S0 = Sem(ctx, init, call=call0, cond=lambda t, ev: True if utext(t).startswith("hand") else None,
+             env={"h": F.sym("h"), "order": F.sym("order"), "self.ksize": F.sym("ksize")})
+    lo, hi = "slice(None, ksize, None)", "slice(ksize, None, None)"
+    want = {"E_vv": ("v", "v"), "E_vd": ("v", "d"), "E_dv": ("d", "v"), "E_dd": ("d", "d")}
+    half = {"v": S0.ev._index_value(ast.parse("x[:ksize]", mode="eval").body.slice), "d": S0.ev._index_value(ast.parse("x[ksize:]", mode="eval").body.slice)}
+    for nm, (r, c) in want.items():
+        got = S0.env(f"self.{nm}")
+        w = F.fn("idx", F.sym("E"), F.fn("tuple", half[r], half[c]))
+        ok = got is not None and not is_unknown(got) and not isinstance(got, tuple) and need(got).equals(w)
+        ctx.check(ok, f"SolveExp2.__init__: {nm} is the block of E that maps the {('velocity' if c == 'v' else 'displacement')} half of the state to the "
+                      f"{('velocity' if r == 'v' else 'displacement')} half (state layout [v; d]: rows/columns :ksize are velocities)", init, None if ok else repr(got))
+    ok = S0.same(S0.env("self.P"), F.sym("P")) and S0.same(S0.env("self.Q"), F.sym("Q"))
+    ctx.check(ok, "SolveExp2.__init__: P and Q are stored under their own names", init)
+    # ---- tsolve on a generic history
+    NT = 4
+    f = tuple(F.sym(f"f{k}") for k in range(NT))
+    Edd, Edv, Evd, Evv, P_, Q_ = (F.sym(x) for x in ("E_dd", "E_dv", "E_vd", "E_vv", "P", "Q"))
+    IM = F.sym("invm")
+    for order in (1, 0):
+        for mcase in ("None", "diagonal", "full"):
+            def cond(test, ev, order=order, mcase=mcase):
+                t = utext(test)
+                return {"ksize>0": True, "nt>1": True, "self.misnotNone": mcase != "None", "self.misNone": mcase == "None", "self.unc": mcase == "diagonal",
+                        "self.order==1": order == 1, "self.order==0": order == 0, "notself.slices": False, "self.slices": True}.get(t)
+
+            def call(node, ev):
+                d = dotted(node.func) or ""
+                if d == "np.atleast_2d":
+                    return ev.ev(node.args[0])
+                if d == "self._init_dva":
+                    return (F.sym("d"), F.sym("v"), F.sym("a"), ev.ev(node.args[0]))
+                if d in ("la.lu_solve", "la.solve") and len(node.args) >= 2:
+                    a, b = ev.ev(node.args[0]), ev.ev(node.args[1])
+                    if is_unknown(a) or isinstance(a, tuple):
+                        return NotImplemented
+                    if isinstance(b, tuple):
+                        return tuple(need(a) * need(x) for x in b)      # invm stands for M^-1 in both storage forms
+                    return need(a) * need(b)
+                return NotImplemented
+
+            def sub(node, ev):
+                # force[kdof] -> the history itself (rows restricted); PQF[half, i] -> half(PQF_i); D = d[kdof] / V = v[kdof] -> work arrays
+                t = utext(node)
+                if t == "force[kdof]":
+                    return ev.ev(node.value)
+                if isinstance(node.value, ast.Name) and node.value.id == "PQF" and isinstance(node.slice, ast.Tuple) and len(node.slice.elts) == 2:
+                    pq = ev.env.get("PQF")
+                    i = ev.ev(node.slice.elts[1])
+                    if isinstance(pq, tuple) and not is_unknown(i) and i.is_const():
+                        h_ = utext(node.slice.elts[0])
+                        which = {":ksize": "v", "ksize:": "d"}.get(h_)
+                        k = int(i.const_value())
+                        if which and 0 <= k < len(pq) and not is_unknown(pq[k]):
+                            return F.fn("half", which, need(pq[k]))
+                return NotImplemented
+
+            S = Sem(ctx, ts, cond=cond, call=call, subscript=sub, loop_unroll=8, forward_stores=True, pinned={"nt": F.const(NT)},
+                    env={"force": f, "self.E_dd": Edd, "self.E_dv": Edv, "self.E_vd": Evd, "self.E_vv": Evv, "self.P": P_, "self.Q": Q_, "self.invm": IM,
+                         "self.ksize": F.sym("ksize")})
+            g = tuple((IM * x) if mcase != "None" else x for x in f)
+            col = lambda nm, k: F.fn("idx", F.sym(nm), F.fn("tuple", F.fn("slice", F.sym("None"), F.sym("None"), F.sym("None")), F.const(k)))
+            dprev, vprev = col("D", 0), col("V", 0)
+            cells = {}
+            for nm_, ix, val, st in S.ev.cells:
+                u = unfn(ix) if not is_unknown(ix) else None
+                if nm_ in ("D", "V") and u and u[0] == "tuple" and len(u[1]) == 2 and not isinstance(u[1][1], str) and u[1][1].is_const():
+                    cells[(nm_, int(u[1][1].const_value()))] = val
+            ok, detail = True, None
+            for i in range(NT - 1):
+                pq = P_ * g[i] + (Q_ * g[i + 1] if order == 1 else 0)
+                wd = Edd * dprev + Edv * vprev + F.fn("half", "d", pq)
+                wv = Evd * dprev + Evv * vprev + F.fn("half", "v", pq)
+                gd, gv = cells.get(("D", i + 1)), cells.get(("V", i + 1))
+                for got, w, what in ((gd, wd, "displacement"), (gv, wv, "velocity")):
+                    if got is None or is_unknown(got) or isinstance(got, tuple) or not need(got).equals(w):
+                        ok = False
+                        detail = detail or {"step": i + 1, "quantity": what, "stored": repr(got)[:300], "recurrence": repr(w)[:300]}
+                dprev, vprev = wd, wv
+                if not ok:
+                    break
+            ctx.check(ok, f"SolveExp2.tsolve (order {order}, m {mcase}): d and v follow z_i+1 = E z_i + P g_i" + (" + Q g_i+1" if order == 1 else "")
+                      + " block by block (g = M^-1 f) on a generic history", ts, detail)
+
+
+def r10_real_unc_batch(ctx):
+    """SolveUnc's uncoupled time loop: D_i = F D_i-1 + G V_i-1 + A f_i-1 + B f_i, V_i = Fp D_i-1 + Gp V_i-1 + Ap f_i-1 + Bp f_i (order 0: f_i := f_i-1),
+    with the eight coefficient vectors of get_su_coef handed over in the positions the loop function declares.  SolveUnc._solve_real_unc is
+    evaluated on a generic 4-sample history with _solve_real_unc_inner_loop followed interprocedurally (so a swapped argument at the call site
+    is seen), loop unrolled, stores forwarded."""
+    from .sem import Sem, unfn, module_funcs
+    fn = ctx.src.func(SOLVEUNC, "SolveUnc._solve_real_unc")
+    NT = 4
+    f = tuple(F.sym(f"f{k}") for k in range(NT))
+    C = {x: F.fn("attr:" + x, F.sym("self.pc")) for x in ("F", "G", "A", "B", "Fp", "Gp", "Ap", "Bp")}     # pc = self.pc; pc.F ...
+    inl = {k: v for k, v in module_funcs(ctx, SOLVEUNC).items() if k == "_solve_real_unc_inner_loop"}
+    if not inl:
+        raise AnchorError("_solve_real_unc_inner_loop")
+    for order in (1, 0):
+        def cond(test, ev, order=order):
+            t = utext(test)
+            return {"nt==1": False, "order==1": order == 1, "order==0": order == 0, "notself.slices": False, "self.slices": True}.get(t)
+
+        def sub(node, ev):
+            t = utext(node)
+            if t == "force[kdof]":
+                return ev.ev(node.value)
+            return NotImplemented
+
+        env = {"force": f, "self.order": F.const(order)}
+        S = Sem(ctx, fn, cond=cond, subscript=sub, loop_unroll=8, forward_stores=True, pinned={"nt": F.const(NT)}, env=env, inline=inl)
+        # `pc = self.pc` then `pc.F`: resolve through the env entries self.pc.*
+        cells = {}
+        for nm_, ix, val, st in S.ev.cells:
+            u = unfn(ix) if not is_unknown(ix) else None
+            if nm_ in ("D", "V") and u and u[0] == "tuple" and len(u[1]) == 2 and not isinstance(u[1][1], str) and u[1][1].is_const():
+                cells[(nm_, int(u[1][1].const_value()))] = val
+        col = lambda nm, k: F.fn("idx", F.sym(nm), F.fn("tuple", F.fn("slice", F.sym("None"), F.sym("None"), F.sym("None")), F.const(k)))
+        dp, vp = col("D", 0), col("V", 0)
+        ok, detail = True, None
+        for i in range(1, NT):
+            f1 = f[i] if order == 1 else f[i - 1]
+            wd = C["F"] * dp + C["G"] * vp + C["A"] * f[i - 1] + C["B"] * f1
+            wv = C["Fp"] * dp + C["Gp"] * vp + C["Ap"] * f[i - 1] + C["Bp"] * f1
+            for got, w, what in ((cells.get(("D", i)), wd, "displacement"), (cells.get(("V", i)), wv, "velocity")):
+                if got is None or is_unknown(got) or isinstance(got, tuple) or not need(got).equals(w):
+                    ok = False
+                    detail = detail or {"step": i, "quantity": what, "stored": repr(got)[:300], "recurrence": repr(w)[:300]}
+            dp, vp = wd, wv
+            if not ok:
+                break
+        ctx.check(ok, f"SolveUnc._solve_real_unc (order {order}): every step of a generic history is F d + G v + A f_i-1 + B f_i (and the primed twin), with "
+                      "pc.F ... pc.Bp in the positions of the loop function's parameters", fn, detail)
+
+
 RULES = [
     ("C01-R1", r1_coef_identities, 150),
     ("C01-R1b", r1b_regime_selectors, 14),
@@ -706,6 +940,9 @@ RULES = [
     ("C01-R4", r4_frame_typing, 14),
     ("C01-R6", r6_equilibrium_acceleration, 11),
     ("C01-R7", r7_subspace_typing, 12),
+    ("C01-R8", r8_solveexp1, 14),
+    ("C01-R9", r9_solveexp2, 12),
+    ("C01-R10", r10_real_unc_batch, 2),
 ]
 
 LEVEL = "other"
